@@ -1955,8 +1955,14 @@ func (l *lexer) lexRuneLiteral() error {
 	if len(l.src) <= p || l.src[p] != '\'' {
 		return l.errorf("rune literal not terminated")
 	}
+	cols := 0
+	for _, c := range l.src[:p+1] {
+		if isStartChar(c) {
+			cols++
+		}
+	}
 	l.emit(tokenRune, p+1)
-	l.column += p + 1
+	l.column += cols
 	return nil
 }
 
